@@ -51,13 +51,25 @@ def sim_trace(block, nsteps=4, seed=1):
     return {k: list(v) for k, v in tr.trace.items()}
 
 
-def frame_check(design, passname):
-    """Executable contract (level B). Returns replay-style dict."""
+def frame_check(design, passname, foreign=False):
+    """Executable contract (level B). Returns replay-style dict.
+    foreign=True: the source is NOT the working block while the pass runs (it is handed over through
+    the block= argument); the working block is an unrelated design that must stay untouched."""
     import pyrtl
     probs = []
     A = designs.build(design)
     other = pyrtl.Block()
-    pyrtl.set_working_block(A, no_sanity_check=True)
+    if foreign:
+        with pyrtl.set_working_block(other, no_sanity_check=True):
+            oi = pyrtl.Input(2, 'c11_other_in')
+            orr = pyrtl.Register(2, 'c11_other_reg', reset_value=1)
+            orr.next <<= oi
+            oo = pyrtl.Output(2, 'c11_other_out')
+            oo <<= orr
+        pyrtl.set_working_block(other, no_sanity_check=True)
+        fp_other = fingerprint(other)
+    else:
+        pyrtl.set_working_block(A, no_sanity_check=True)
     wb_before = pyrtl.working_block()
     fp0 = fingerprint(A)
     tr0 = sim_trace(A)
@@ -71,6 +83,13 @@ def frame_check(design, passname):
         probs.append('source simulation changed after %s' % passname)
     if B is A:
         probs.append('result is the source block itself')
+    if foreign:
+        if fingerprint(other) != fp_other:
+            probs.append('the (unrelated) working block was modified by %s' % passname)
+        src_if = sorted((type(w).__name__, w.name, w.bitwidth) for w in A.wirevector_subset((pyrtl.Input, pyrtl.Output)))
+        res_if = sorted((type(w).__name__, w.name, w.bitwidth) for w in B.wirevector_subset((pyrtl.Input, pyrtl.Output)))
+        if passname in ('copy_block', 'optimize_copy') and src_if != res_if:
+            probs.append('result interface %s is not the interface of the source %s' % (res_if[:4], src_if[:4]))
     shared = set(id(w) for w in A.wirevector_set) & set(id(w) for w in B.wirevector_set)
     if shared:
         probs.append('%d wire objects shared between source and result' % len(shared))
@@ -119,6 +138,17 @@ def frame_check(design, passname):
         y <<= ~x
     if fingerprint(A) != fp0:
         probs.append('editing the result modified the source')
+    # renaming wires of the result while the source (or an unrelated block) is the working block
+    names0 = sorted(A.wirevector_by_name)
+    for w in sorted(B.wirevector_set, key=lambda w: w.name):
+        if not isinstance(w, (pyrtl.Input, pyrtl.Output)):
+            w.name = 'c11_renamed_' + w.name
+    if sorted(A.wirevector_by_name) != names0 or fingerprint(A) != fp0:
+        probs.append('renaming wires of the result changed the by-name map of the source')
+    try:
+        A.sanity_check()
+    except Exception as e:
+        probs.append('source fails sanity_check after the result was edited: %s' % str(e)[:100])
     sim_trace(B, seed=3)
     if sim_trace(A) != tr0:
         probs.append('simulating/editing the result changed the source behaviour')
@@ -127,7 +157,8 @@ def frame_check(design, passname):
         y2 = pyrtl.Output(1, 'c11_src_out')
         y2 <<= x2
     trB1 = sim_trace(B)
-    trB1 = {k: v for k, v in trB1.items() if not k.startswith('c11_new')}
+    trB1 = {(k[len('c11_renamed_'):] if k.startswith('c11_renamed_') else k): v
+            for k, v in trB1.items() if not k.startswith('c11_new')}
     trB0c = {k: v for k, v in trB0.items()}
     # B gained c11_new_in, which consumes random bits in name order; compare only structure:
     if set(trB0c) - set(trB1):
@@ -149,19 +180,21 @@ def run(ctx):
     passcheck.run_family(ctx, 'C11.copy_equiv', tasks, FUNCS,
                          'copy / non-updating pass result is not behaviourally identical to the source')
     # frame conditions (level B: executable contract on each member)
-    cases = [(d, p) for d in fam for p in NOUPD]
+    cases = [(d, p, False) for d in fam for p in NOUPD]
+    cases += [(d, p, True) for d in fam if d['name'] in ('counter', 'mem_rw', 'mixed_alu', 'rom_padded', 'regs_reset')
+              for p in NOUPD]
     res = passcheck.pmap(_frame, cases)
     bad = 0
-    for (d, p), r in zip(cases, res):
+    for (d, p, fg), r in zip(cases, res):
         if r.get('crashed'):
             ctx.crashes.append('C11.frame: ' + r['observed'][-400:])
             continue
         if r['failed']:
             bad += 1
-            ctx.confirm_and_report('C11.frame[%s|%s]' % (p, passcheck._dname(d)), 'call',
+            ctx.confirm_and_report('C11.frame[%s|%s%s]' % (p, passcheck._dname(d), '|foreign' if fg else ''), 'call',
                                    dict(module='props.C11', func='frame_check',
-                                        kwargs=dict(design=d, passname=p)),
-                                   canonical_input=dict(design=d, passname=p), function=FUNCS,
+                                        kwargs=dict(design=d, passname=p, foreign=fg)),
+                                   canonical_input=dict(design=d, passname=p, foreign=fg), function=FUNCS,
                                    text='source block / working block disturbed, or objects shared')
     ctx.family('C11.frame', 'B', instances=len(cases), evaluations=len(cases),
                nontrivial=len(cases), exhaustive=False,
@@ -178,7 +211,7 @@ def run(ctx):
 def _frame(case):
     import traceback
     try:
-        return frame_check(case[0], case[1])
+        return frame_check(case[0], case[1], case[2])
     except Exception:
         from vlib.guard import guarded
         return guarded(_reraise)
